@@ -1,31 +1,25 @@
 /-
   C04 — The reader accepts exactly the documented SMILES grammar.
 
-  PARTIAL.  Proved here:
-    * the verdict is a function of the string alone — in the model `read` returns the event list and
-      followers consume it afterwards, which is faithful because `Follower` methods return `()`; the
-      correspondence runs every string through four followers and compares the verdicts;
-    * completeness for canonical spellings (via T-wr, C09): every protocol-conformant history — any
-      nesting of branches, dots inside branches, any ring numbers, every atom kind with every combination
-      of bracket fields — is spelled by the writer as a string that the reader accepts, so the accepted
-      language contains the whole image of the writer;
-    * soundness of the shape of what is accepted: an accepted string yields a conformant, non-empty
-      history whose writer text is accepted again (the accepted language is closed under normalisation);
-    * the token languages of each class are characterised by C07's round-trip theorems.
-    * the documented grammar is a formal object of this development: `Spec.classify`
-      (Purr/Spec/Automaton.lean), a deterministic character-level automaton with a parenthesis counter,
-      written from the property text and the OpenSMILES token tables (element symbols from the independent
-      table `Spec.periodicSymbols`), not from the reader; it is total (`grammar_total`) and every sentence
-      of it is built from the documented tokens by construction.
-  Not yet a theorem: `(read s).2 = .ok ↔ Spec.classify s = .ok` for every string (soundness and
-  completeness for non-canonical spellings such as `%01`, `[C+1]`, `@TH1`).  That equivalence — verdict AND
-  error cursor — is decided on every run: the real reader's verdict is compared with `Spec.classify`
-  executed by the Lean driver (field G of the S-read and S-atom suites: all strings up to a length bound
-  over the SMILES alphabet, every member of every token family and its one-character corruptions,
-  grammar-directed random strings), and again with the harness's own reference recogniser.
+  `accepts_iff_grammar`: for EVERY string, `read` accepts it if and only if it is a sentence of the documented
+  grammar `Spec.classify` (Purr/Spec/Automaton.lean) — a deterministic character-level automaton with a
+  parenthesis counter, written from the property text and the OpenSMILES token tables (element symbols from
+  the independent table `Spec.periodicSymbols`), not from the reader: organic-subset atoms, `*`, bracket atoms
+  `[` isotope? symbol configuration? hcount? charge? map? `]` (isotope and map of up to three digits, 118
+  element symbols, the aromatic symbols b c n o s p se as, configurations @ @@ @TH1-2 @AL1-2 @SP1-3 @TB1-20
+  @OH1-30, `H` with an optional digit, charges + - ++ -- ±1..±15), bonds, ring numbers 0-9 / %00-%99, dots and
+  parenthesised branches.  Proof (Purr/Lemmas/GrammarEqL.lean, `read_eq_classify`): token by token, every
+  token reader consumes exactly the characters the automaton runs through and fails exactly where it has no
+  move; the reader's hand-typed symbol tables are shown equal to the periodic table by exhaustive evaluation.
+  Also proved: the verdict is a function of the string alone (followers cannot influence it), completeness
+  on the writer's image (via T-wr, C09), closure of the accepted language under normalisation.
+  The real reader's verdict is additionally compared with `Spec.classify` on every run (field G), and with the
+  harness's own reference recogniser.
 -/
 import Purr.Props.C09
 import Purr.Lemmas.AutomatonL
+import Purr.Lemmas.GrammarEqL
+import Purr.Lemmas.ReaderL
 namespace Purr.C04
 open Purr
 
@@ -66,6 +60,21 @@ theorem empty_refused : read [] = ([], .fail []) := by
   unfold read
   rw [run.eq_def]
   simp [readAtom, readOrganic, readBracket]
+
+/-- THE READER ACCEPTS EXACTLY THE DOCUMENTED GRAMMAR -/
+theorem accepts_iff_grammar (s : Str) : Accepted s ↔ Spec.classify s = .ok := by
+  have h := read_eq_classify s
+  unfold Accepted
+  constructor
+  · intro hok; rw [hok] at h; exact h.symm
+  · intro hc
+    rw [hc] at h
+    cases hv : (read s).2 with
+    | ok => rfl
+    | fail a =>
+      rw [hv] at h
+      exact absurd h (toSpec_fail_ne_ok _ _)
+    | panic p => exact absurd hv (run_no_panic .needRoot [0] s p)
 
 /-- the documented grammar gives every string a verdict, and an error position always lies inside the string -/
 theorem grammar_total (s : Str) :
